@@ -483,6 +483,7 @@ func sortedTokens(s string) string {
 }
 
 type xWorld struct {
+	nilVars    bool // Execute(w, nil, data)
 	multiset   bool
 	joinPieces bool
 	set        *jet.Set
@@ -587,7 +588,7 @@ func (w *xWorld) execute(r xRun) (o xObs) {
 		return
 	}
 	var vars jet.VarMap
-	if r.Vars != nil {
+	if r.Vars != nil && !w.nilVars {
 		vars = jet.VarMap{}
 		for n, v := range r.Vars {
 			if v != xUnset {
@@ -597,7 +598,7 @@ func (w *xWorld) execute(r xRun) (o xObs) {
 	}
 	// collections are fresh per execution (channels are consumed, rangers advance)
 	for i, e := range w.colls {
-		if vars == nil {
+		if vars == nil && !w.nilVars {
 			vars = jet.VarMap{}
 		}
 		vars.Set(fmt.Sprintf("c%d", i), collValue(e))
@@ -706,6 +707,7 @@ func xReplayWith(tag string) func(i int, raw json.RawMessage) Result {
 		}
 		key := string(raw)
 		w.multiset = strings.HasPrefix(v.Tag, "mapset|")
+		w.nilVars = strings.HasPrefix(v.Tag, "nilvars|")
 		esc := func(s string) string { return "«" + s + "»" }
 		for k, r := range v.Case.Runs {
 			if k >= len(v.Results) {
